@@ -187,9 +187,14 @@ def analyse_main(ur, res, meta, text):
             ur.undecided.append('rlimit exceeded in %s' % (f['key'] if f else sorted(prim)[:1]))
             continue
         props = sorted(set([l.split('.')[0] for l in labels])) if labels else (f['props'] if f else [])
+        # 'script' = the failing obligation is a step of the proof script (precondition of a hint lemma / assertion inside a hint, or
+        # inside a prelude lemma), not a contract clause and not the real code
+        hint_lines = set(meta.get('hint_lines', []))
+        msg = (d.get('message') or '').lower()
+        script = (bool(prim) and prim <= hint_lines and ('precondition not satisfied' in msg or 'assertion failed' in msg)) or (f is None)
         ur.failures.append({'fn': f['key'] if f else None, 'file': f['file'] if f else None, 'line': f['line'] if f else None,
                             'labels': labels, 'props': props, 'message': d.get('message'),
-                            'rendered': d.get('rendered', '')[:3000], 'in_prelude': f is None})
+                            'rendered': d.get('rendered', '')[:3000], 'in_prelude': f is None, 'script': script and not labels})
     if summ.get('encountered-vir-error') and not ur.undecided:
         ur.undecided.append('verus reported a VIR error')
     vf = res['functions']
@@ -315,7 +320,7 @@ def decode_vals(byte_vecs, types):
     return vals
 
 
-def native_replay(case, args, timeout=600):
+def native_replay(case, args, timeout=240):
     """build (from /repo's working tree) and run the native replay binary; returns (rc, output)."""
     prepare_cargo('replay')
     env = dict(os.environ, CARGO_NET_OFFLINE='true')
@@ -436,6 +441,31 @@ def check_property(prop, tier, seed):
             obligations += 1
             if l['verified']:
                 discharged += 1
+        # failures that are only steps of the proof script (no contract clause of that function fails): the script does not apply to
+        # the changed text.  That is NOT evidence of a violation (a harmless reordering does this): undecided, unless the unit's native
+        # witness search produces a concrete failing input of the real code.
+        fns_with_contract_failure = set(fl['fn'] for fl in relevant_fail if not fl.get('script'))
+        script_only = [fl for fl in relevant_fail if fl.get('script') and fl['fn'] not in fns_with_contract_failure]
+        if script_only and ur.changed:
+            relevant_fail = [fl for fl in relevant_fail if fl not in script_only]
+            from config import WITNESS_SEARCH
+            ws = WITNESS_SEARCH.get(ur.unit)
+            found = False
+            if ws:
+                rc_w, out_w = native_replay(ws[0], [str(a).replace('$SEED', str(seed + 1)) for a in ws[1]])
+                if rc_w == 1:
+                    found = True
+                    payload = {'property': prop, 'unit': ur.unit, 'function': script_only[0]['fn'], 'file': script_only[0]['file'],
+                               'failed_obligation': {'labels': [], 'message': 'proof script no longer applies (%s) and the native witness search found a failing input' % script_only[0]['message']},
+                               'verifier': 'verus (proof-script step failed: undecided) + native witness search (bounded)',
+                               'verifier_output': script_only[0]['rendered'], 'changed_items_vs_baseline': ur.changed,
+                               'failing_input': out_w.split('\n')[0],
+                               'native_replay': {'case': ws[0], 'args': ws[1], 'output': out_w, 'confirmed_on_real_code': True}}
+                    violations.append(('%s_%s_witness' % (ur.unit, script_only[0]['fn']), payload, True))
+            if not found:
+                for fl in script_only:
+                    undecided.append('%s: the proof script of %s no longer applies to the changed text (%s at a hint position); no contract clause fails and no failing input was found: undecided'
+                                     % (ur.unit, fl['fn'], fl['message']))
         for fl in relevant_fail:
             # known finding?
             kf = match_known(known, prop, ur.unit, fl)
@@ -543,6 +573,23 @@ def check_property(prop, tier, seed):
             elif rc_k != 0:
                 undecided.append('known-finding witness %s could not run: %s' % (kf['replay'][0], out_k[-300:]))
 
+    # ---- bounded companions that run in every tier (deterministic, sequential, small budget): native searches over the statement of
+    #      the property itself, for the parts no contract decides.  NOT proof steps: listed separately, never counted as discharged.
+    quick_comp_ev = []
+    for (case, args, what) in cfg.get('quick_companions', []):
+        a = [str(x).replace('$SEED', str(seed + 1)) for x in args]
+        rc_c, out_c = native_replay(case, a, timeout=600)
+        quick_comp_ev.append({'case': case, 'args': a, 'bounded': True, 'what': what, 'found_failing_input': rc_c == 1,
+                              'summary': out_c.strip().split('\n')[0][:300]})
+        if rc_c == 1:
+            payload = {'property': prop, 'unit': 'bounded-companion', 'function': case,
+                       'failed_obligation': {'labels': [], 'message': 'bounded companion found a failing input of the real code: ' + what},
+                       'verifier': 'native search (bounded, not a proof step)', 'verifier_output': out_c, 'failing_input': out_c.split('\n')[0],
+                       'native_replay': {'case': case, 'args': a, 'output': out_c, 'confirmed_on_real_code': True}}
+            violations.append(('companion_%s' % case, payload, True))
+        elif rc_c != 0:
+            undecided.append('bounded companion %s did not run to completion (rc=%s): %s' % (case, rc_c, out_c.strip()[-200:]))
+
     # ---- regression replays of the repaired genuine defects (concrete witnesses, run natively on the real code) ----
     regr_ev = []
     for (case, args, what) in REGRESSION_REPLAYS.get(prop, []):
@@ -594,6 +641,7 @@ def check_property(prop, tier, seed):
             'termination_not_claimed_for': [f['key'] for f in functions_ev if f.get('no_termination_claim')],
             'known_findings_reported': known_hits,
             'regression_replays_of_fixed_findings': regr_ev,
+            'bounded_companions_every_tier': quick_comp_ev,
             'undecided': undecided,
             'thorough': thorough,
             'back_ends': {'verus': (unit_results[0].verus or {}).get('verus_version') if unit_results else None, 'smt': 'z3 (bundled with verus)',
